@@ -88,11 +88,15 @@ Proof.
   rewrite E1, (vred_complete _ _ E2). reflexivity.
 Qed.
 
+(* the names of func_fit's function_map resolve to the functions of the same name *)
+Lemma fit_func_id f : fit_func f = f.
+Proof. destruct f; reflexivity. Qed.
+
 (* func_fit assembled from the source's expressions = reference form *)
 Theorem func_fit_eq_ref f x y w ncoeff ia ans ifunc :
   func_fit f x y w ncoeff ia ans ifunc = func_fit_ref f x y w ncoeff ia ans ifunc.
 Proof.
-  unfold func_fit, func_fit_ref.
+  unfold func_fit, func_fit_ref. rewrite fit_func_id.
   change (filter (fun p : Q * Q => g_good (snd p)) (combine y w)) with (filter (fun p : Q * Q => Qlt_bool 0 (snd p)) (combine y w)).
   destruct (length (filter (fun p : Q * Q => Qlt_bool 0 (snd p)) (combine y w))) as [|[|k]]; try reflexivity.
   cbn [Nat.eqb g_ngood_none g_ngood_one]. rewrite g_has_fixed, scale_rows_gen_eq, fit_core_gen_eq. reflexivity.
